@@ -1395,7 +1395,7 @@ Proof.
 Qed.
 
 Lemma msame_self b m : b <= m_sp m <= zlen (m_stack m) -> msame b m m.
-Proof. intros H. unfold msame. conj; try reflexivity; lia. Qed.
+Proof. intros H. unfold msame. conj; try reflexivity; try apply incl_refl; lia. Qed.
 
 (* the array under construction is on top of the stack and grows by the values of the elements *)
 Definition RunsArr (Dl : list (string * value) -> res (list value)) (keep : bool) (s s2 sd : cstate) (P : list Z) : Prop :=
